@@ -42,3 +42,15 @@ Theorem c15_listener_invariant_in_every_reachable_world :
     AI (fold_left (run_top_all beh) ops (world0 fuel p)).
 Proof. exact reachable_AI. Qed.
 Print Assumptions c15_listener_invariant_in_every_reachable_world.
+
+(* ---------- the bit sets consulted when an event is removed (src/bit_set.rs, coq/BitSet.v) ---------- *)
+Require Import EV.BitSet.
+(* "removes exactly the handlers that receive it or are able to send it": a handler's sendable events are a BitSet filled
+   by insert and |= while its parameters are initialised and queried by contains.  Over every sequence of insert, remove,
+   union and shrink_to_fit the bit set is the finite set of the specification: contains answers membership exactly. *)
+Theorem c15_sent_event_sets_are_finite_sets :
+  forall ops : list bs_op,
+    BsInv (fold_left bs_step ops nil) /\
+    forall j, bs_contains (fold_left bs_step ops nil) j = fold_left BitSet.spec_step ops (fun _ => false) j.
+Proof. exact bs_from_empty. Qed.
+Print Assumptions c15_sent_event_sets_are_finite_sets.
